@@ -224,7 +224,49 @@ def run (ctx):
             ctx.bad('R-EFFECT', meth, "every removal is executed (`%s`)" % norm(n)[:60],
                     "`%s` changes the handler table but is the right operand of `%s`: once the left operand decides the result it is not evaluated - the remaining "
                     "removals (other event types of the same handler, the other listeners of the list) are silently skipped and those handlers keep being invoked" % (norm(c)[:60], opn), (mod, n), 'D4')
+  # the same short-circuit through any()/all() over a *generator*: evaluation stops at the first decisive element
+  for meth in em.methods.values():
+    for n in ast.walk(meth.node):
+      if isinstance(n, ast.Call) and isinstance(n.func, ast.Name) and n.func.id in ('any', 'all') and len(n.args) == 1 and isinstance(n.args[0], ast.GeneratorExp):
+        for c in calls_in(n.args[0].elt):
+          callee = em.find_method(call_name(c)) if isinstance(c.func, ast.Attribute) and norm(c.func.value) == 'self' else None
+          if callee is not None and changes_table(callee):
+            n_bool += 1
+            ctx.bad('R-EFFECT', meth, "every removal is executed (`%s`)" % norm(n)[:60],
+                    "`%s` changes the handler table but is evaluated lazily inside %s(<generator>), which stops at the first %s result: the remaining listeners of the list are never removed and keep being invoked"
+                    % (norm(c)[:50], n.func.id, 'true' if n.func.id == 'any' else 'false'), (mod, n), 'D4')
   ctx.stat('table-changing calls in short-circuit position', n_bool)
+  # event-type keys: if any code deletes a key of the handler table, every place that indexes the table by type must expect
+  # the key to be missing (the dispatcher removes one-shot handlers by type after the handler may have emptied the list)
+  key_dels = []; bare_loads = []
+  for meth in em.methods.values():
+    gm = q.cfg_of(meth)
+    for n in gm.nodes:
+      if n.ast is None: continue
+      for c in q.node_calls(n):
+        if call_name(c) in ('pop', 'popitem', 'clear') and isinstance(c.func, ast.Attribute) and norm(c.func.value) == 'self.' + TABLE: key_dels.append((meth, c))
+      if isinstance(n.ast, ast.Delete):
+        for t in n.ast.targets:
+          if isinstance(t, ast.Subscript) and norm(t.value) == 'self.' + TABLE: key_dels.append((meth, n.ast))
+      if n.kind in ('def', 'branch', 'handler', 'join', 'for'): continue
+      srcs = [n.ast] if not isinstance(n.ast, (ast.For, ast.While, ast.If, ast.With, ast.Try)) else []
+      for src in srcs:
+        for x in ast.walk(src):
+          if isinstance(x, ast.Subscript) and isinstance(x.ctx, ast.Load) and norm(x.value) == 'self.' + TABLE and not isinstance(x.slice, ast.Slice):
+            key = norm(x.slice)
+            fs = q.fact_strs(gm, n)
+            guarded = any(f_ == '%s in self.%s' % (key, TABLE) for f_ in fs) or any(h.ast.type is None or 'KeyError' in norm(h.ast.type) or 'Exception' in norm(h.ast.type) for h in gm.handlers_for(n)) \
+                      or any(isinstance(lp, ast.For) and norm(lp.iter) in ('self.' + TABLE, 'self.%s.keys()' % TABLE, 'list(self.%s)' % TABLE) and norm(lp.target) == key for lp, h_, a_ in gm.loop_nodes)
+            if not guarded: bare_loads.append((meth, x))
+  if key_dels:
+    f_, c_ = key_dels[0]
+    for meth, x in bare_loads:
+      ctx.bad('R-DOM', meth, "`%s` expects the event type to have a table entry" % norm(x)[:50],
+              "%s deletes keys of the handler table (`%s`), yet %s indexes the table by type without a membership test: removing a handler of a type whose last listener has just gone (e.g. a one-shot handler that unsubscribed itself during delivery) raises KeyError to the raiser"
+              % (f_.name, norm(c_)[:40], meth.name), (mod, x), 'D4')
+    if not bare_loads: ctx.ob('R-DOM', em, "type keys may disappear and every lookup by type expects that", True, "all lookups guarded", em, 'D4')
+  else:
+    ctx.ob('R-OWN', em, "event-type keys are never deleted from the handler table", True, "%d unguarded lookups by type rely on it" % len(bare_loads), em, 'D4')
 
   # ---- D5 declared events ----------------------------------------------------------------
   undeclared = [('self._eventMixin_events is not True', True), ('eventType not in self._eventMixin_events', True), ('byName', False)]
